@@ -16,6 +16,7 @@ import Genq.Model.TypeMap
 import Genq.Model.Imports
 import Genq.Model.Codec
 import Genq.Model.InputClosure
+import Genq.Model.CodecIn
 open Lean
 namespace Genq.Driver
 
@@ -575,6 +576,13 @@ def opCodec (op : String) (j : Json) : Except String Json := do
         | .error e => Json.mkObj [("ok", false), ("err", errOut e)]
         | .ok v2 => Json.mkObj [("ok", true), ("val", valOut v2)]
       return Json.mkObj [("supported", supported), ("ok", true), ("val", valOut v), ("enc", tjOut out), ("again", again)]
+  | "codec.vars" =>
+    -- what a helper call sends: fields of the __<Op>Input struct (names tagged ",omitempty"), one argument JSON each
+    let fs ← parseFlds (← getArr j "fs").toList
+    let args ← (← getArr j "args").toList.mapM parseTJ
+    match Codec.encVars fs args with
+    | .error e => return Json.mkObj [("ok", false), ("err", errOut e)]
+    | .ok out => return Json.mkObj [("ok", true), ("enc", tjOut out)]
   | _ => throw s!"unknown op {op}"
 
 
